@@ -233,7 +233,7 @@ CHECKS.update({
                 "explicit schedule. A second interleaving model (gets against a running merge pass: DashMap guard kept across the read, "
                 "copy-and-re-point under the entry lock, unlinks afterwards) proves for every schedule that no get reads an unlinked "
                 "file, every get returns the value at its lookup and the merge never changes the map; the variant without the guard "
-                "is refuted. A third model (puts that replace the active file: append, create the next file, publish; per-reader, per-file "
+                "is refuted. A third model (puts and deletes that replace the active file: append, create the next file, publish; per-reader, per-file "
                 "mappings opened at first use and renewed when they do not cover the record) proves for every schedule that no reader finds "
                 "a file missing or a record outside its mapping, that every get returns the value at its lookup, that the history is "
                 "linearizable (same commit-point theorem) and that no step of a put waits for a reader; the variant that never renews is refuted. Partial: the three models are not composed. The check forces 8 "
